@@ -33,6 +33,9 @@ U32s == {"0", "255", "2147483647", "2147483648", "4294967295"}
 U64s == {"0", "255", "2147483648", "4294967296", "9223372036854775807", "9223372036854775808", "18446744073709551615"}
 F64s == {<<0,0,0,0,0,0,0,0>>, <<128,0,0,0,0,0,0,0>>, <<63,248,0,0,0,0,0,0>>, <<0,0,0,0,0,0,0,1>>, <<127,239,255,255,255,255,255,255>>, <<255,239,255,255,255,255,255,255>>,
          <<67,64,0,0,0,0,0,1>>, <<63,185,153,153,153,153,153,154>>}
+\* the infinities (NaN is outside the statement); JSON cannot write them, so the float-carrying types below are materialised from their bits
+F64Inf == {<<127,240,0,0,0,0,0,0>>, <<255,240,0,0,0,0,0,0>>}
+F32Inf == {<<127,128,0,0>>, <<255,128,0,0>>}
 F32s == {<<0,0,0,0>>, <<128,0,0,0>>, <<63,192,0,0>>, <<0,0,0,1>>, <<127,127,255,255>>, <<61,204,204,205>>}
 Chars == {97, 0, 233, 8364, 128512, 1114111, 55295}
 Strs == {<<>>, <<97>>, <<104, 105>>, <<195, 169>>, <<226, 130, 172, 32, 240, 159, 152, 128>>, <<117, 110, 100, 101, 102, 105, 110, 101, 100>>, <<110, 105, 108>>, <<116, 114, 117, 101>>,
@@ -80,6 +83,11 @@ ByType ==
     WithOpts |-> {St(<< <<"list", l>>, <<"text", t>>, <<"map", m>>, <<"tag", g>>, <<"bytes", y>> >>) :
                     l \in {NoneV, Some(Seq_(<<>>)), Some(Seq_(<<I("1")>>))}, t \in {NoneV, Some(S(<<>>)), Some(S(<<110, 105, 108>>))},
                     m \in {NoneV, Some(Map_(<<>>))}, g \in {NoneV, Some(Var("Unit", "unit", UnitV)), Some(Var("Newtype", "newtype", I("0")))}, y \in {NoneV, Some(Seq_(<<>>))}},
+    F32B |-> {F32(b) : b \in F32s \cup F32Inf}, F64B |-> {F64(b) : b \in F64s \cup F64Inf},
+    OptF32 |-> {NoneV} \cup {Some(F32(b)) : b \in F32Inf \cup {<<0,0,0,0>>, <<128,0,0,0>>, <<127,127,255,255>>}},
+    VecF32 |-> {Seq_(<<>>), Seq_(<<F32(<<127,128,0,0>>), F32(<<255,128,0,0>>), F32(<<63,192,0,0>>)>>), Seq_(<<F32(<<0,0,0,1>>)>>)},
+    TupF32F64 |-> {Seq_(<<F32(a), F64(b)>>) : a \in F32Inf \cup {<<61,204,204,205>>}, b \in F64Inf \cup {<<63,185,153,153,153,153,153,154>>}},
+    FloatPair |-> {St(<< <<"x", F32(a)>>, <<"y", F64(b)>> >>) : a \in F32Inf \cup {<<127,127,255,255>>, <<128,0,0,0>>}, b \in F64Inf \cup {<<127,239,255,255,255,255,255,255>>}},
     OptPlain |-> {NoneV} \cup {Some(p) : p \in {x \in Plains : x.struct[2][2].str = <<>>}},
     MapStrPlain |-> {Map_(<< <<S(<<107>>), p>> >>) : p \in {x \in Plains : x.struct[2][2].str = <<>>}},
     ElixirUser |-> {St(<< <<"name", S(n)>>, <<"age", I(a)>>, <<"active", B(b)>>, <<"score", I(s)>> >>) : n \in SmallStr, a \in {"0", "-2147483648", "2147483647"}, b \in BOOLEAN,
